@@ -17,6 +17,7 @@
 #include "newlines/if_for_while_switch.h"
 #include "newlines/one_liner.h"
 #include "uncrustify.h"
+#include "verif_hooks.h"
 
 
 constexpr static auto LCURRENT = LNEWLINE;
@@ -70,6 +71,7 @@ void blank_line_set(Chunk *pc, Option<unsigned> &opt)
 void do_blank_lines()
 {
    LOG_FUNC_ENTRY();
+   VERIF_HOOK(verif_blank_begin());
 
    for (Chunk *pc = Chunk::GetHead(); pc->IsNotNullChunk(); pc = pc->GetNext())
    {
@@ -91,6 +93,7 @@ void do_blank_lines()
       {
          continue;
       }
+      VERIF_HOOK(verif_blank_visit(pc));
       Chunk *prev = pc->GetPrevNc();
 
       if (prev->IsNotNullChunk())
@@ -654,6 +657,8 @@ void do_blank_lines()
       LOG_FMT(LBLANK, "%s(%d): orig line is %zu, orig col is %zu, text is '%s', end new line count is now %zu\n",
               __func__, __LINE__, pc->GetOrigLine(), pc->GetOrigCol(), pc->Text(), pc->GetNlCount());
    }
+
+   VERIF_HOOK(verif_blank_end());
 } // do_blank_lines
 
 
